@@ -390,35 +390,44 @@ def rule_align(chk, cls):
         if 'align' not in M.arg_names(fn):
             chk.violated('align-after-count-change', name, node=fn, file=PA, func=name, detail='align parameter removed')
             continue
-        g = C.build_cfg(fn)
-        # candidate re-alignment nodes: `if <..align..>: X.align_particles()` tests, or delegation with align=align
-        al_ifs = []
-        for n in g.nodes:
-            if n.kind == 'test' and isinstance(n.ast, ast.If) and 'align' in names_in(n.ast.test):
-                body_calls = [M.call_name(c) or '' for b in n.ast.body for c in M.calls(b)]
-                if any(x.endswith('.align_particles') for x in body_calls):
-                    # condition may only weaken by "nothing changed" tests
-                    extra = [v for v in n.ast.test.values if U(v) != 'align'] if isinstance(n.ast.test, ast.BoolOp) else []
-                    okx = isinstance(n.ast.test, ast.Name) or (
-                        isinstance(n.ast.test, ast.BoolOp) and isinstance(n.ast.test.op, ast.And) and
-                        all(isinstance(v, ast.Compare) and isinstance(v.ops[0], ast.Gt) and U(v.comparators[0]) == '0'
-                            for v in extra))
-                    al_ifs.append((n.id, okx))
-        deleg = [n.id for n in g.nodes if n.ast is not None and isinstance(n.ast, ast.stmt) and not isinstance(n.ast, (ast.If, ast.For, ast.While))
-                 and any(any(k.arg == 'align' and U(k.value) == 'align' for k in c.keywords) and
-                         not (M.call_name(c) or '').startswith('self.gpu') for c in M.calls(n.ast))]
-        muts = [n.id for n in g.nodes if n.ast is not None and isinstance(n.ast, ast.stmt) and not isinstance(n.ast, (ast.If, ast.For, ast.While))
-                and any(isinstance(c.func, ast.Attribute) and c.func.attr in ('remove', 'resize', 'extend', 'copy_values')
-                        and not (M.call_name(c) or '').startswith('self.gpu') for c in M.calls(n.ast))]
-        if deleg and not muts:
-            ok = True
-            detail = 'delegates with align=align'
-        else:
-            good = [i for i, okx in al_ifs if okx]
-            ok = bool(good) and all(g.must_pass(m, g.exit, good) for m in muts)
-            detail = 'every mutation is followed by `if align: align_particles()` before returning'
-        bad = 'a path from a size-changing operation to the return skips the `if align: align_particles()` step' \
-            if al_ifs else 'no `if align: ...align_particles()` found'
+        # per path: whenever the call was asked to align (no test on `align` taken false) and the path has changed the size of the arrays (remove / resize / extend / copy_values)
+        # without having established that nothing was added or removed (a `<count> > 0` test taken false), it re-aligns - align_particles() itself or a delegation that
+        # passes align=align - after the last size change and before returning.  `if n > 0 and align:`, nested ifs and early returns are the same paths.
+        from verif_static import paths as PT
+        MUT = ('remove', 'resize', 'extend', 'copy_values')
+        bad, npaths, deleg_only = None, 0, True
+        for p_ in PT.enumerate_paths(M.docstring_stripped(fn.body)):
+            if p_[-1].kind == 'raise':
+                continue
+            cl = PT.calls_on(p_)
+            if any(cal.startswith('self.gpu') for i_, c_, cal, e_ in cl) and p_[-1].kind == 'return':
+                continue            # the GPU branch hands the whole operation over
+            muts = [i_ for i_, c_, cal, e_ in cl if isinstance(c_.func, ast.Attribute) and c_.func.attr in MUT and not cal.startswith('self.gpu')]
+            delg = [i_ for i_, c_, cal, e_ in cl if any(k.arg == 'align' and U(k.value) == 'align' for k in c_.keywords) and not cal.startswith('self.gpu')]
+            if not muts and not delg:
+                continue
+            npaths += 1
+            if muts:
+                deleg_only = False
+            facts = PT.path_facts(p_)
+            if any(compact_(x) == 'align' and not tr_ for x, tr_ in facts):
+                continue
+
+            def excuse(x):
+                # a conjunct whose failure means there is nothing to align: `align` itself, or `<count> > 0`
+                return compact_(x) == 'align' or (isinstance(x, ast.Compare) and len(x.ops) == 1 and isinstance(x.ops[0], ast.Gt) and U(x.comparators[0]) == '0')
+            if any(isinstance(x, ast.BoolOp) and isinstance(x.op, ast.And) and not tr_ and all(excuse(v_) for v_ in x.values) for x, tr_ in facts):
+                continue
+            if any(isinstance(x, ast.Compare) and len(x.ops) == 1 and isinstance(x.ops[0], ast.Gt) and U(x.comparators[0]) == '0' and not tr_ for x, tr_ in facts) or \
+                    any(isinstance(x, ast.Compare) and len(x.ops) == 1 and isinstance(x.ops[0], ast.Eq) and U(x.comparators[0]) == '0' and tr_ for x, tr_ in facts):
+                continue
+            last_mut = max(muts) if muts else -1
+            al = [i_ for i_, c_, cal, e_ in cl if cal.endswith('.align_particles') and i_ > last_mut] + [i_ for i_ in delg if i_ >= last_mut]
+            if not al:
+                bad = bad or 'a path (%s) changes the size of the arrays and returns without re-aligning although align is set' % ', '.join('%s is %s' % (compact_(x)[:30], tr_) for x, tr_ in facts[-3:])
+        ok = bad is None and npaths > 0
+        detail = 'delegates with align=align' if deleg_only else 'every path that changes the size with align set re-aligns before returning (%d paths)' % npaths
+        bad = bad or 'no size-changing path found'
         chk.decide(ok, 'align-after-count-change', name, node=fn, file=PA, func=name, detail_bad=bad, detail_ok=detail)
     # _initialize aligns
     fn = meths.get('_initialize')
@@ -550,6 +559,24 @@ def rule_particles_info(chk):
                    detail_ok='two model arrays in both orders: each record has exactly its own properties (type, default, stride), constants and output list')
     except (AI.Unsupported, AI.Raised) as e:
         chk.undecided('replica-description', 'get_particles_info:each-array-its-own-record:model-run', node=fn, file=UT, func='get_particles_info', detail='not interpretable: %s' % e)
+
+
+def rule_slices_from_counts(chk, cls):
+    """"the last k entries" written as the slice [-k:] is the whole array when k is 0 (-0 == 0): a slice bound in the particle array is never the negation of a count - the
+    new entries of a grown array start at <old count>*stride"""
+    n, bad = 0, []
+    for x in ast.walk(cls):
+        if isinstance(x, ast.Slice):
+            n += 1
+            for b in (x.lower, x.upper):
+                if b is not None and any(isinstance(y, ast.UnaryOp) and isinstance(y.op, ast.USub) and not isinstance(y.operand, ast.Constant) for y in ast.walk(b)):
+                    bad.append((x, b))
+    chk.floor('slices in ParticleArray', n, 6)
+    fn0 = M.enclosing_func(bad[0][0]) if bad else None
+    chk.decide(not bad, 'whole-property-coverage', 'slice-bounds-are-not-negated-counts', node=bad[0][0] if bad else cls, file=PA, func=M.qualname(fn0) if fn0 is not None else 'ParticleArray',
+               detail_bad='slice `%s`: for a count of 0 the bound -0 is 0 and the slice covers the whole array - every existing particle is overwritten (add_particles with empty '
+                          'arrays resets all properties that were not passed to their defaults)' % (U(bad[0][0]) if bad else ''),
+               detail_ok='%d slices, none bounded by a negated count' % n)
 
 
 def rule_pickle(chk, cls):
@@ -930,6 +957,7 @@ def rule_empty_clone_model(chk):
     t = M.cy(PA)
     fn = M.find_method(t, 'ParticleArray', 'empty_clone')
     bad, und, nrun = None, None, 0
+    shared = None
     for props in (None, ['A', 'x'], ['tag', 'B'], []):
         it_log = {'props': [], 'consts': [], 'name': None, 'out': None}
 
@@ -948,6 +976,7 @@ def rule_empty_clone_model(chk):
 
             def seto(i, a, k, n, e):
                 it_log['out'] = list(a[0])
+                it_log['out_obj'] = a[0]          # set_output_arrays keeps the very list it is given
             # a fresh array already has the three built-in properties
             def carr0(ty):
                 return EM.mock(get_c_type=lambda i, a, k, n, e: ty)
@@ -978,6 +1007,8 @@ def rule_empty_clone_model(chk):
         gout = sorted(it_log['out']) if it_log['out'] is not None else None
         if bad is None and (got != want or sorted(it_log['consts']) != [('c0', ('c', 0)), ('rho0', ('c', 1))] or it_log['name'] != 'fluid' or gout != wout):
             bad = (props, got, want, it_log['consts'], it_log['name'], gout, wout)
+        if it_log.get('out_obj') is src.attrs['output_property_arrays'] and shared is None:
+            shared = (props,)
     if und:
         chk.undecided('replicated-property-keeps-attributes', 'empty_clone:model-run', node=fn, file=PA, func='empty_clone', detail='not interpretable on the model: ' + und)
     else:
@@ -985,6 +1016,10 @@ def rule_empty_clone_model(chk):
                    detail_bad='a model array (x, A: int default 7 stride 3, B: float, tag with default 2, gid with default 5; constants c0, rho0; output arrays x, A, gid) cloned with '
                               'props=%s: properties added %s, expected %s; constants %s, name %r, output arrays %s (expected %s)' % (bad or ('',) * 7),
                    detail_ok='%d selections: every requested property (built-ins included) with the type, default and stride of the source; constants, name, output arrays' % nrun)
+        chk.decide(shared is None, 'replicated-property-keeps-attributes', 'empty_clone:own-output-list', node=fn, file=PA, func='empty_clone',
+                   detail_bad='cloned with props=%s the clone is handed the very list object that is the source\'s output_property_arrays (set_output_arrays keeps the list it is '
+                              'given): add_output_arrays / remove_property on either array edits the output list of both' % (shared[0] if shared else None,),
+                   detail_ok='the clone gets a list of its own')
     return nrun
 
 
@@ -1359,6 +1394,7 @@ def main(chk):
     rule_align(chk, cls)
     rule_pickle(chk, cls)
     rule_particles_info(chk)
+    rule_slices_from_counts(chk, cls)
     rule_replicate(chk, cls)
     rule_tag_scans(chk, cls)
     rule_storage(chk, cls)
